@@ -281,6 +281,9 @@ def run(M, rec, tier, seed, k, n):
     mon = primmon.PrimMonitor(M, rec, PROP).install()
     try:
         vsl_layouts(M, rec, rng, 8 if tier == "quick" else 12, k, n)
+        from vf import batched
+
+        batched.batched_primitives(M, rec, rng, PROP, 600 if tier == "quick" else 6000, monitors=(mon,))
         direct_calls(M, rec, rng, 12000 if tier == "quick" else 150000)
         W.numpy_steps(M, rec, rng, 150 if tier == "quick" else 1500, draws=2)
     finally:
